@@ -265,7 +265,7 @@ def main():
     manifest = {
         "version": 1,
         "setup_cmd": ("/venv/bin/pip install --quiet --no-index --find-links /opt/veriftools/wheels "
-                      "--target .deps --upgrade mpmath hypothesis"),
+                      "--target .deps --upgrade mpmath hypothesis atheris"),
         "hooks": {
             "guard": "SCIPPNEUTRON_VERIF",
             "enable": "no hooks are needed: every property is observable through public return values, "
